@@ -21,7 +21,23 @@ class CpuBudget(BaseException):
     """Raised inside a case when its CPU budget (ITIMER_PROF) is used up."""
 
 
+LAST_PROF_AT = None
+
+
 def _on_prof(signum, frame):
+    # remember where the CPU budget ran out: innermost frame outside the harness (module path tail + function)
+    global LAST_PROF_AT
+    f = frame
+    where = None
+    while f is not None:
+        fn = f.f_code.co_filename
+        if "/vlib/" not in fn and "/checks/" not in fn and not fn.startswith("<"):
+            parts = fn.replace("\\", "/").split("/")
+            tail = "/".join(parts[-2:])
+            where = f"{tail}:{f.f_code.co_name}"
+            break
+        f = f.f_back
+    LAST_PROF_AT = where
     raise CpuBudget()
 
 
@@ -58,10 +74,12 @@ def main() -> None:
             continue
         case = json.loads(line)
         t0 = time.process_time()
+        global LAST_PROF_AT
+        LAST_PROF_AT = None
         try:
             obs = work(case)
         except CpuBudget:
-            obs = {"_cpu_exhausted": True}
+            obs = {"_cpu_exhausted": True, "_cpu_exhausted_at": LAST_PROF_AT}
         except MemoryError:
             obs = {"_oom": True}
         except BaseException as e:  # harness-level failure: report, never hide
@@ -70,6 +88,8 @@ def main() -> None:
             disarm_cpu()
         if not isinstance(obs, dict):
             obs = {"value": obs}
+        if LAST_PROF_AT and "_cpu_exhausted" not in obs:
+            obs["_cpu_budget_fired_at"] = LAST_PROF_AT   # the budget signal fired but the code under test swallowed it and went on
         obs["cpu_s"] = round(time.process_time() - t0, 4)
         obs["maxrss_kb"] = resource.getrusage(resource.RUSAGE_SELF).ru_maxrss
         try:
